@@ -891,7 +891,8 @@ class LangServer:
             return sub_string.strip(), arg_string.split(","), sections[-1].start
 
         def check_optional(arg, params: dict):
-            opt_split = arg.split("=")
+            # `name == 1` is a positional argument, not the keyword `name=`
+            opt_split = re.split(r"=(?!=)", arg, maxsplit=1)
             if len(opt_split) > 1:
                 opt_arg = opt_split[0].strip().lower()
                 for i, param in enumerate(params):
